@@ -23,6 +23,7 @@ package percolator
 //@   property C19
 //@   ensures [math] lock != nil ==> (result <==> (lock.TTL != 0 && math(currentTs) >= math(lock.Ts) + math(lock.TTL)))
 //@   ensures [nil-lock] lock == nil ==> !result
+//@   tag ghost-pure
 //@   modifies nothing
 
 // ---- C18 / C19 kernel: per-key commit and rollback against the storage boundary ----
@@ -45,10 +46,64 @@ package percolator
 //@   ensures [error-means-no-record] result2 != nil ==> result == nil
 //@   modifies nothing
 
+//@ ghost var lockLookups Int
+//@ ghost var lastLockFound bool
+//@ ghost var lastLockTs uint64
+//@ ghost var lastLockTTL uint64
 //@ func (*Reader).GetLock
 //@   trusted
-//@   tag ghost-pure
+//@   ghost lockLookups = lockLookups + 1
+//@   ghost lastLockFound = result != nil
+//@   ghost lastLockTs = (result != nil ? result.Ts : 0)
+//@   ghost lastLockTTL = (result != nil ? result.TTL : 0)
+//@   ensures [error-means-no-lock] result1 != nil ==> result == nil
 //@   modifies nothing
+
+// The newest write record of a key, whatever its kind (put, delete, lock, rollback).
+//@ ghost var mrwCalls Int
+//@ ghost var lastMRWFound bool
+//@ ghost var lastMRWCommitTs uint64
+//@ func (*Reader).MostRecentWrite
+//@   trusted
+//@   ghost mrwCalls = mrwCalls + 1
+//@   ghost lastMRWFound = result != nil
+//@   ghost lastMRWCommitTs = result1
+//@   ensures [error-means-no-record] result2 != nil ==> result == nil
+//@   modifies nothing
+//@ func keyErrorWriteConflict
+//@   trusted
+//@   ensures [non-nil] result != nil
+//@   modifies nothing
+//@ func EncodeLock
+//@   trusted
+//@   modifies nothing
+//@ func NewReader
+//@   trusted
+//@   ensures [non-nil] result != nil
+//@   modifies nothing
+//@ func github.com/feichai0017/NoKV/kv::SafeCopy
+//@   trusted
+//@   modifies nothing
+
+// C18 prewrite: a key is locked and its value staged only if the conflict checks ran
+// and found neither a lock of another transaction nor ANY write record (commit or
+// rollback marker alike) at or above the start version.
+//@ func prewriteMutation
+//@   property C18
+//@   requires req != nil && mut != nil
+//@   ensures [newer-write-blocks-prewrite] mrwCalls == old(mrwCalls) + 1 && lastMRWFound && lastMRWCommitTs >= req.StartVersion ==> result != nil && dbWrites == old(dbWrites)
+//@   ensures [foreign-lock-blocks-prewrite] lockLookups == old(lockLookups) + 1 && lastLockFound && lastLockTs != req.StartVersion ==> result != nil && dbWrites == old(dbWrites)
+//@   ensures [conflict-checks-not-skipped] result == nil ==> mrwCalls == old(mrwCalls) + 1 && lockLookups == old(lockLookups) + 1
+//@   modifies ghost(mrwCalls), ghost(lastMRWFound), ghost(lastMRWCommitTs), ghost(lockLookups), ghost(lastLockFound), ghost(lastLockTs), ghost(lastLockTTL), ghost(dbWrites), ghost(writeCFSets), ghost(lockDeletes), ghost(defaultDeletes), ghost(writeAfterLockDelete)
+
+// C19 CheckTxnStatus: the lock of ANOTHER transaction on the primary key is never
+// touched, and a lock of the inspected transaction that has not expired is not removed.
+//@ func CheckTxnStatus
+//@   property C19
+//@   requires latches == nil || len(latches.stripes) > 0
+//@   ensures [foreign-lock-untouched] req != nil && lockLookups == old(lockLookups) + 1 && lastLockFound && lastLockTs != req.LockTs ==> dbWrites == old(dbWrites) && result != nil && result.Error != nil
+//@   ensures [live-lock-kept] req != nil && lockLookups == old(lockLookups) + 1 && lastLockFound && lastLockTs == req.LockTs && !(lastLockTTL != 0 && math(req.CurrentTs) >= math(lastLockTs) + math(lastLockTTL)) ==> lockDeletes == old(lockDeletes)
+//@   ensures [one-lock-lookup] req != nil ==> lockLookups == old(lockLookups) + 1
 
 //@ func keyErrorAbort
 //@   trusted
@@ -87,7 +142,7 @@ package percolator
 //@   ensures [one-lookup] lookups == old(lookups) + 1
 //@   ensures [decided-transaction-untouched] lastFound ==> result == nil && dbWrites == old(dbWrites)
 //@   ensures [rollback-record-last] result == nil && !lastFound ==> writeCFSets == old(writeCFSets) + 1 && lockDeletes == old(lockDeletes) + 1 && defaultDeletes == old(defaultDeletes) + 1
-//@   modifies nothing
+//@   modifies ghost(lookups), ghost(lastFound), ghost(lastRollback), ghost(sawRollback), ghost(dbWrites), ghost(writeCFSets), ghost(lockDeletes), ghost(defaultDeletes), ghost(writeAfterLockDelete)
 
 //@ func Commit
 //@   property C18
